@@ -68,8 +68,8 @@ def cases(tier, seed):
                    "swhere": swhere, "sval": sval, "order": order,
                    "via": vias[(j + n) % 4], "reload": (j // 3 + n) % 4,
                    "const": (j + n) % 3 == 0}
-            if kind == "cases" and n % 4 == 0 and core.pick(
-                    [n, mode, req, swhere, sval, order, "m2"], 3) == 0:
+            if kind == "cases" and n % 6 == 0 and core.pick(
+                    [n, mode, req, swhere, sval, order, "m2"], 2) == 0:
                 yield {"n": n, "mode": mode, "req": req, "kind": "mix2",
                        "swhere": "ctor" if swhere == "ctor" else None,
                        "sval": sval if swhere == "ctor" else False,
@@ -233,8 +233,10 @@ def setup_case(case):
     if kind == "mix2":
         # cases crossed with two sub-grid arguments that are not in
         # alphabetical order (through sow_cases)
-        _, fn_args, cs = build_inputs(case["n"] // 4, "cases")
-        combos = [["z", [2, 1]], ["c", [10, 20]]]
+        # (of different lengths: a raw reap carries no labels, so only the
+        # shape tells the two axis orders apart)
+        _, fn_args, cs = build_inputs(case["n"] // 6, "cases")
+        combos = [["z", [2, 1]], ["c", [10, 30, 20]]]
     else:
         combos, fn_args, cs = build_inputs(case["n"], kind)
     argnames = list(fn_args or []) + [a for a, _ in (combos or [])]
